@@ -752,7 +752,7 @@ func main() {
 	)
 	dispatch := func(j job) {
 		jobNo++
-		sampled := jobNo%997 == 1 // a spread of samples over all families; core keeps the first 12
+		sampled := jobNo%173 == 100 // a spread of samples; core keeps the first 12
 		wg.Add(1)
 		sem <- struct{}{}
 		go func() {
